@@ -7,7 +7,9 @@ Decided from the source of contentviews/__init__.py, _registry.py, _view_raw.py,
         runs only inside ``try ... except Exception``; the only unprotected prettify is RawContentview's, a total decode
         (errors="backslashreplace"/"replace"/"ignore"); registry.get_view guards every render_priority call with a non-raising
         ``except Exception`` and the explicit-name lookup with ``except KeyError``; the translation table used by
-        escape_control_characters (evaluated from the module-level statements) maps every C0, DEL and C1 control character except
+        escape_control_characters - interpreted from its AST (pyint, shared with C49 R49.2) on every C0 / DEL / C1 code point alone and
+        embedded and on every combination of character classes, so that fast paths / pre-checks around the table are analysed, and, when it
+        is still `return text.translate(<table>)`, with its table evaluated from the module-level statements - maps every C0, DEL and C1 control character except
         tab / LF / CR to a printable character.
   R50.2 DNS view field coverage: every dataclass field of DNSMessage, Question and ResourceRecord (timestamp excepted) is written by
         to_json from ``self.<field>`` and read back by from_json from the same key with the matching to_str/from_str codec; the keys the
@@ -282,6 +284,27 @@ def eval_table_program(ctx):
     return env
 
 
+def check_escape_semantics(ctx):
+    """escape_control_characters interpreted from its AST (pyint, shared with C49 R49.2) on representatives of every combination of character
+    classes - decides the sanitiser whatever it does around ``str.translate`` (fast paths, pre-checks, helpers)."""
+    from ._helpers_G import control_character_domain
+    from ._helpers_G import interpret_sanitiser
+
+    fn = ctx.func(STR, "escape_control_characters")
+    W = (STR, "escape_control_characters", fn)
+    ks = params_of(fn)[1] if len(params_of(fn)) > 1 else None
+    ctx.require(ks is not None and fn.args.defaults and isinstance(fn.args.defaults[-1], ast.Constant) and fn.args.defaults[-1].value is True,
+                "escape_control_characters: keep_spacing (default True) parameter not found")
+    res, _ = interpret_sanitiser(ctx.model, STR, "escape_control_characters", keep_kw=ks)
+    leaked, example = res[True]  # prettify_message calls it with the default
+    n_in = len(control_character_domain())
+    ctx.cells += n_in
+    groups = "/".join(g for g, hit in (("C0", any(c < 32 for c in leaked)), ("DEL", 127 in leaked), ("C1", any(128 <= c < 160 for c in leaked))) if hit)
+    ctx.check(not leaked, "R50.1", W, f"escape_control_characters lets {groups} control characters through",
+              f"escape_control_characters(keep_spacing=True) passes {len(leaked)} control code points through for some inputs, e.g. {example[0][:24]!r} -> {example[1][:24]!r}" if leaked else "",
+              desc=f"escape_control_characters interpreted on {n_in} inputs (every C0 / DEL / C1 code point alone and embedded, every combination of classes): output free of control characters except TAB, LF, CR")
+
+
 def check_escape_table(ctx):
     fn = ctx.func(STR, "escape_control_characters")
     W = (STR, "escape_control_characters", fn)
@@ -444,7 +467,11 @@ def check(ctx):
              "hides no key from_json needs")
     check_prettify_message(ctx)
     check_get_view(ctx)
-    check_escape_table(ctx)
+    check_escape_semantics(ctx)
+    try:
+        check_escape_table(ctx)
+    except AnalysisError as e:
+        ctx.note(f"R50.1 structural reading of the escape table not available ({e}); the interpreted sanitiser is the decision")
     required, _ = check_fields(ctx, "DNSMessage", skip=("timestamp",))
     check_fields(ctx, "Question")
     check_fields(ctx, "ResourceRecord", lenient=("data",))
@@ -466,6 +493,10 @@ MUTANTS = [
     Mutant("render-priority-unguarded", REGF, "            except Exception:\n                logger.exception(f\"Error in {view.name}.render_priority\")", "            except AssertionError:\n                logger.exception(f\"Error in {view.name}.render_priority\")", "R50.1"),
     Mutant("unknown-view-name-raises", REGF, "            except KeyError:\n                logger.warning(", "            except KeyError:\n                raise\n                logger.warning(", "R50.1"),
     Mutant("revert-fix-c1-controls-pass", STR, "_control_char_trans.update({x: ord(\".\") for x in range(128, 160)})  # C1 controls\n", "", "R50.1"),
+    Mutant("fast-path-regex-without-c1", STR, "    trans = _control_char_trans_newline if keep_spacing else _control_char_trans\n    return text.translate(trans)",
+           "    if not re.search(r\"[\\x00-\\x1f\\x7f]\", text):\n        return text\n    trans = _control_char_trans_newline if keep_spacing else _control_char_trans\n    return text.translate(trans)", "R50.1"),
+    Mutant("fast-path-short-text-unchanged", STR, "    trans = _control_char_trans_newline if keep_spacing else _control_char_trans\n    return text.translate(trans)",
+           "    if len(text) < 2:\n        return text\n    trans = _control_char_trans_newline if keep_spacing else _control_char_trans\n    return text.translate(trans)", "R50.1"),
     Mutant("del-passes", STR, "_control_char_trans[127] = ord(\".\")  # 0x2421\n", "", "R50.1"),
     Mutant("truncation-not-written", DNS, "            \"truncation\": self.truncation,\n", "", "R50.2"),
     Mutant("recursion-desired-hardcoded", DNS, "            recursion_desired=data[\"recursion_desired\"],", "            recursion_desired=False,", "R50.2"),
